@@ -173,7 +173,19 @@ func (h *Handler) Handle(cx *layer4.Connection, next layer4.Handler) error {
 		repl.Set("l4.conn.local_addr", conn.LocalAddr())
 	}
 
-	return next.Handle(cx.Wrap(conn))
+	return next.Handle(cx.Wrap(halfCloser{Conn: conn, under: cx}))
+}
+
+// halfCloser is the PROXY protocol connection plus the half-close of the
+// connection it reads from (proxyprotocol.Conn does not forward CloseWrite).
+type halfCloser struct {
+	*proxyprotocol.Conn
+	under *layer4.Connection
+}
+
+// CloseWrite forwards the half-close to the underlying connection.
+func (hc halfCloser) CloseWrite() error {
+	return hc.under.CloseWrite()
 }
 
 // UnmarshalCaddyfile sets up the Handler from Caddyfile tokens. Syntax:
